@@ -268,7 +268,7 @@ def run_std_cases(ctx: Ctx, n_cases: int, n_values: int, judge: Dict[str, bool])
         mods = None
         try:
             try:
-                comp = sut_compiler.compile_schema(root, d, ["c", "py"], rng=rng, emit_kw=dict(semi=0.3, comments=0.2, path_style="random"))
+                comp = sut_compiler.compile_schema(root, d, ["c", "py"], rng=rng, emit_kw=dict(semi=0.3, comments=0.2, path_style="random", compact=0.15))
             except Exception as e:
                 harness.compile_failed(res, e, wit)
                 continue
@@ -548,7 +548,7 @@ def run_opt_cases(ctx: Ctx, n_cases: int, n_random: int, judge: Dict[str, bool],
         top = ctx.casedir(f"o{case_id}")
         wit: Dict[str, Any] = {"case": case_id, "shard": ctx.shard}
         try:
-            paths = __import__("vlib.emit", fromlist=["write_schema"]).write_schema(root, top, rng=rng, semi=0.3, comments=0.2, path_style="random")
+            paths = __import__("vlib.emit", fromlist=["write_schema"]).write_schema(root, top, rng=rng, semi=0.3, comments=0.2, path_style="random", compact=0.15)
             wit["schema"] = describe(root, paths)
             dirs: Dict[str, str] = {}
             try:
